@@ -149,6 +149,12 @@ def build(e):
         kron = O.KroneckerProductLinearOperator(*[build(x) for x in e["ops"]])
         if e["dk"] == "const":
             dg = O.ConstantDiagLinearOperator(e["c"].clone(), diag_shape=kron.shape[-1])
+        elif e["dk"] == "kconst":
+            # Kronecker-structured diagonal, every factor a ConstantDiagLinearOperator
+            dg = O.KroneckerProductDiagLinearOperator(
+                *[O.ConstantDiagLinearOperator(dv[..., :1].clone(), diag_shape=dv.shape[-1]) for dv in e["dfs"]])
+        elif e["dk"] == "kdiag":
+            dg = O.KroneckerProductDiagLinearOperator(*[O.DiagLinearOperator(dv.clone()) for dv in e["dfs"]])
         else:
             dg = O.DiagLinearOperator(e["d"].clone())
         return O.KroneckerProductAddedDiagLinearOperator(kron, dg)
@@ -228,8 +234,7 @@ def dense(e):
     if c == "KronAddedDiag":
         k = dense({"cls": "Kron", "ops": e["ops"]})
         n = k.shape[-1]
-        dg = e["c"].expand(*e["c"].shape[:-1], n) if e["dk"] == "const" else e["d"]
-        return k + torch.diag_embed(dg)
+        return k + torch.diag_embed(kad_diag(e, n))
     if c == "LowRankRootAddedDiag":
         return e["root"] @ e["root"].mT + torch.diag_embed(e["d"])
     if c in ("BlockDiag", "BlockInterleaved"):
@@ -258,6 +263,18 @@ def dense(e):
         l = torch.linalg.cholesky(dense(e["base"]))      # the unique factor with a positive diagonal (plain torch)
         return l.mT.contiguous() if e["upper"] else l
     raise ValueError(c)
+
+
+def kad_diag(e, n):
+    """the diagonal a KronAddedDiag spec adds (plain torch)"""
+    if e["dk"] == "const":
+        return e["c"].expand(*e["c"].shape[:-1], n)
+    if e["dk"] in ("kconst", "kdiag"):
+        r = None
+        for dv in e["dfs"]:
+            r = dv if r is None else (r.unsqueeze(-1) * dv.unsqueeze(-2)).reshape(*r.shape[:-1], -1)
+        return r
+    return e["d"]
 
 
 def batch(e):
@@ -358,6 +375,19 @@ def opd_lit(e, bb, idx):
         return "(DTriOver %s (DAddedDiag %d%%N %s))" % (common.coq_bool(e["upper"]), m.shape[-1], mat_lit(m))
     if c == "Kron":
         return "(DKron [:: %s])" % "; ".join(opd_lit(x, bb, idx) for x in e["ops"])
+    if c == "KronAddedDiag" and e["dk"] in ("kconst", "kdiag"):
+        eig, dvs = [], []
+        for x, dv in zip(e["ops"], e["dfs"]):
+            kf = member(dense(x), bb, idx)
+            dm = member(dv, bb, idx, 1)
+            if e["dk"] == "kdiag":
+                r = dm.sqrt().reciprocal()
+                kf = (r.unsqueeze(-1) * kf) * r.unsqueeze(-2)        # D^-1/2 K D^-1/2 as the library forms it
+            w, q = torch.linalg.eigh(kf)
+            eig.append("(%d%%N, %s, %s)" % (kf.shape[-1], mat_lit(q), vec_lit(w)))
+            dvs.append(vec_lit(dm))
+        return "(DKronAddedKronDiag %s [:: %s] [:: %s] [:: %s])" % (
+            common.coq_bool(e["dk"] == "kconst"), "; ".join(opd_lit(x, bb, idx) for x in e["ops"]), "; ".join(dvs), "; ".join(eig))
     if c == "KronAddedDiag":
         k = dense({"cls": "Kron", "ops": e["ops"]})
         n = k.shape[-1]
@@ -478,6 +508,11 @@ def gen(rng, cls, n, kappa, obatch=(), **kw):
         nn = int(math.prod(sizes))
         if kw["dk"] == "const":
             return {"cls": cls, "ops": ops, "dk": "const", "c": posvec(rng, 1, 0.3, 2.0, ob)}
+        if kw["dk"] == "kconst":
+            return {"cls": cls, "ops": ops, "dk": "kconst",
+                    "dfs": [posvec(rng, 1, 0.5, 2.0, ob).expand(*ob, m).contiguous() for m in sizes]}
+        if kw["dk"] == "kdiag":
+            return {"cls": cls, "ops": ops, "dk": "kdiag", "dfs": [posvec(rng, m, 0.5, 2.0, ob) for m in sizes]}
         return {"cls": cls, "ops": ops, "dk": "general", "d": posvec(rng, nn, 0.3, 2.0, ob)}
     if cls == "LowRankRootAddedDiag":
         k = kw["rank"]
